@@ -255,8 +255,10 @@ class _Benign(ast.NodeTransformer):
                     and all(_benign_expr(k.value, None, self.pure) for k in c.keywords)):
                 return None
             i = 1 if c.func.attr == 'log' else 0       # not droppable: only the wording is ignored
-            if len(c.args) > i and isinstance(c.args[i], ast.Constant) and isinstance(c.args[i].value, str):
-                c.args[i] = ast.Constant(MESSAGE)
+            if len(c.args) > i and not any(isinstance(a, ast.Starred) for a in c.args[:i + 1]):
+                ph = _message_placeholder(c.args[i], self.pure)      # keeps the calls made among its operands
+                if ph is not None:
+                    c.args[i] = ph
             return node
         v = node.value
         if (isinstance(v, ast.Call) and isinstance(v.func, ast.Attribute) and v.func.attr == 'warn'
